@@ -355,7 +355,10 @@ def read_ndjson(path):
         for line in f:
             line = line.strip()
             if line:
-                out.append(json.loads(line))
+                try:
+                    out.append(json.loads(line))
+                except ValueError:
+                    break       # a line cut short: the writer died; callers see the missing summary
     return out
 
 
